@@ -715,4 +715,28 @@ theorem searchRaw_complete {rings : Adj} (G : GraphOK rings) (hk : ∀ p ∈ rin
   · omega
   · exact h
 
+theorem component_status (rings : Adj) (db pyr : List Nat) (buf limit : Nat)
+    (h1 : (kekuleComponent rings db pyr buf limit).2 ≠ .more)
+    (h2 : ∀ e, (kekuleComponent rings db pyr buf limit).2 ≠ .crashed e) :
+    (searchRaw rings db pyr limit).crash = none ∧ (searchRaw rings db pyr limit).found.length < limit := by
+  unfold kekuleComponent at h1 h2
+  simp only at h1 h2
+  cases hc : (searchRaw rings db pyr limit).crash with
+  | some e => simp [hc] at h2
+  | none =>
+    refine ⟨rfl, ?_⟩
+    simp only [hc] at h1
+    by_contra hlt
+    have : limit ≤ (searchRaw rings db pyr limit).found.length := by omega
+    simp [this] at h1
+
+/-- completeness for `kekuleComponent` without ambiguous atoms -/
+theorem component_complete {rings : Adj} (G : GraphOK rings) (hk : ∀ p ∈ rings, 2 ≤ p.2.length) (db0 : List Nat)
+    (buf limit : Nat) (h1 : (kekuleComponent rings db0 [] buf limit).2 ≠ .more)
+    (h2 : ∀ e, (kekuleComponent rings db0 [] buf limit).2 ≠ .crashed e) {f : Nat × Nat → Nat}
+    (VF : ValidFormR rings db0 f) : ∃ y ∈ (kekuleComponent rings db0 [] buf limit).1, Agr f y := by
+  obtain ⟨hc, hl⟩ := component_status rings db0 [] buf limit h1 h2
+  rw [component_yields_eq]
+  exact searchRaw_complete G hk db0 limit hc hl VF
+
 end ChythonModel.Proofs.C05S
